@@ -84,7 +84,7 @@ def funnel_cases(draw, tier="quick"):
     deco = lambda: (draw(st.sampled_from([b"", b"", b"/", b"./", b"//", b"././", b"/./"])), draw(st.sampled_from([b"/", b"/", b"//", b"/./", b"/.//"])),
                     draw(st.sampled_from([b"", b"", b"/", b"/.", b"//"])))
     return dict(nodes=nodes, deco_name={n["path"]: deco() for n in nodes}, deco_tgt={n["path"]: deco() for n in nodes if n["type"] == "hlink"},
-                what=draw(st.sampled_from(["tar_names", "tar_names", "tar_exclude", "pack_file", "pack_glob", "sort_file", "rd_path", "rd_path", "dotdot", "s2t_opts"])),
+                what=draw(st.sampled_from(["tar_names", "tar_names", "tar_exclude", "pack_file", "pack_glob", "sort_file", "tar_rootbecomes", "rd_path", "rd_path", "dotdot", "s2t_opts"])),
                 s2t_root=draw(st.sampled_from([b"pre", b"pre/sub", b"x.y", b".hid"])), s2t_deco=deco(),
                 exclude=draw(st.sampled_from([b"skip/*", b"dir", b"*/sub", b"a*"])), ex_deco=deco(),
                 dd_where=draw(st.sampled_from(["name", "target", "arg"])), dd_style=draw(st.sampled_from([b"../", b"x/../", b"./../", b"x/.././"])))
@@ -177,6 +177,31 @@ def check_case(case, opts):
             r2 = t2s_run(_tar(case, sp_names, sp_tgts), o2)
             both_images(r1, r2, o1, o2, "tar2sqfs member names / hard link targets")
             return CaseInfo(changed >= 1 and r1.rc == 0, ["tar_names"] + (["hardlink_target_spelled"] if any(sp_tgts[p] != canon_tgts[p] for p in sp_tgts) else []))
+        if what == "tar_rootbecomes":
+            # tar2sqfs --root-becomes D: hard link and symlink targets that lie below D are re-targeted ("adjusted if they are prefixed
+            # by the root path"); whether a target lies below D must not depend on how it is spelled.  Symlinks pointing elsewhere are
+            # stored verbatim and keep one spelling.
+            dirs_ = [n["path"] for n in nodes if n["type"] == "dir" and any(m["path"].startswith(n["path"] + b"/") for m in nodes)]
+            if not dirs_:
+                raise Inconclusive("no directory with contents")
+            D = dirs_[len(dirs_) // 2]
+            below = [m["path"] for m in nodes if m["path"].startswith(D + b"/")][:3]
+            variants = []
+            for k in range(2):
+                extra, nm = [], dict(canon_names if k == 0 else sp_names)
+                for i, tpath in enumerate(below):
+                    d_ = case["deco_name"][tpath]
+                    lead = [b"", b"/"][i % 2]
+                    tgt = (lead + tpath) if k == 0 else (spell(tpath, (d_[0] or lead, d_[1], b""), False))
+                    ln = D + b"/zz_link%d" % i
+                    extra.append(dict(path=ln, type="slink", target=tgt))
+                    nm[ln] = ln
+                variants.append((dict(case, nodes=nodes + extra), nm))
+            spelled_root = spell(D, case["s2t_deco"], True)
+            r1 = t2s_run(_tar(variants[0][0], variants[0][1], canon_tgts), o1, ["-r", D])
+            r2 = t2s_run(_tar(variants[1][0], variants[1][1], sp_tgts), o2, ["-r", spelled_root])
+            both_images(r1, r2, o1, o2, "tar2sqfs --root-becomes %r (%r): member names, hard link and symlink targets below it" % (D, spelled_root))
+            return CaseInfo(r1.rc == 0 and len(below) >= 1, ["tar_rootbecomes"])
         if what == "tar_exclude":
             ex = case["exclude"]
             r1 = t2s_run(_tar(case, canon_names, canon_tgts), o1, ["-E", ex])
